@@ -273,6 +273,14 @@ func (x *gen) special2() *Node {
 		k := x.unit("k") * S
 		start := x.unit("start") * 2 * math.Pi
 		end := start + (0.5+4*x.unit("turns"))*2*math.Pi
+		if x.intr("inward", 0, 2) == 0 {
+			// winding inwards (a < 0): the largest radius is at the START angle; the radius stays >= 0
+			k += a * end
+			a = -a
+		}
+		if x.intr("swapped", 0, 3) == 0 {
+			start, end = end, start // documented as sorted by the constructor
+		}
 		return &Node{Op: "arcspiral", P: []float64{a, k, start, end, x.length("d", 0.01, 0.1)}}
 	case "isothread":
 		pitch := x.length("pitch", 0.05, 0.4)
